@@ -48,6 +48,8 @@ M = {
  "zero-variance series with an inexact mean": ("C10", "CouplingAnalysis(d).cross_correlation(0,'all') with a column of seven 0.1: entries nan / inf instead of 0 (anomalies a non-zero constant, std 0, only NaN was reset)"),
  "quantile thresholds of narrow integer": ("C16", "make_event_matrix(int8 column [-84,-60,-44,116,98,122], 'quantile', 0.5, 'above') marked no event: np.quantile overflowed in int8 (threshold 155)"),
  "wrappers reject matrices that are not N x N": ("C20 C18", "ResNetwork: res.adjacency = 12x12 matrix, then edge_current_flow_betweenness() / vertex_current_flow_betweenness(0) indexed the stored 5x5 admittance / R as 12x12 (values from foreign memory)"),
+ "exactly collinear series is infinite": ("C10", "CouplingAnalysis.mutual_information(estimator='gauss') of exactly collinear columns: r marginally above 1 by rounding gave NaN instead of +inf (also breaking lag_mode='max')"),
+ "closeness of directed networks uses": ("C03", "closeness() on directed networks called igraph with its default mode (directions ignored): directed 3-cycle gave [1,1,1] instead of 2/3 and disagreed with closeness(link_attribute) at unit lengths"),
  "vanishing Fourier amplitudes": ("C15", "refined_AAFT_surrogates returned NaN rows when a Fourier coefficient of the iterate was exactly zero (e.g. [1,-1,2,-2,3,-3,0,0])"),
 }
 fixed = []
@@ -58,7 +60,6 @@ for h, msg in fix:
         fixed.append(f"fixed: property={p} {h} {M[k[0]][1]}")
 known = [
  {"property": "C11", "match": r"^bounded:nsi_cross_average_path_length/(definition|arg-symmetry)$", "what": "nsi_cross_average_path_length sums the node weights of list 1 for both factors (W_P*W_P instead of W_P*W_Q): ([0,5],[1,2,4]) -> 3.3306 but ([1,2,4],[0,5]) -> 1.5742 on the undirected test network; the suite pins 3.3306, so it cannot be repaired"},
- {"property": "C03", "match": r"^bounded:closeness/directed-out-distance$", "what": "closeness() on directed networks calls igraph with mode=ALL: directed 3-cycle gives [1,1,1] instead of 2/3 (and disagrees with closeness(link_attribute) at unit lengths)"},
  {"property": "C03", "match": r"^bounded:link_betweenness/directed-link-covered$", "what": "link_betweenness on directed networks assumes igraph's undirected edge order: directed 8-cycle, link 7->0 gets 0"},
  {"property": "C02", "match": r"^bounded:(nsi_cross_average_path_length|nsi_cross_closeness_centrality|nsi_internal_closeness_centrality(\[l[12]\])?)/split-unreachable-pairs$", "what": "n.s.i. cross/internal closeness and cross average path length replace unreachable pairs by N-1, which changes under a split: A=[[0,1,0],[1,0,0],[0,0,0]], lists [0,1],[2], split node 2: cross closeness [0.5,0.5] -> [0.333,0.333]"},
  {"property": "C02", "match": r"^bounded:nsi_newman_betweenness\[add_local_ends\]/split-singleton-component$", "what": "nsi_newman_betweenness(add_local_ends=True) hard-codes 0 for one-node components: two isolated nodes w=[3,0.5], splitting node 0 gives [0,0] -> [9,0,9]"},
@@ -70,9 +71,8 @@ known = [
  {"property": "C07", "match": r"^bounded:RecurrenceNetwork/missing/(rqa-size-consistent-with-R|setter/adjacency-is-R-without-diagonal)$", "what": "RecurrenceNetwork(missing_values=True) with a NaN state: self.N becomes the order of the reduced network while R keeps its full order (recurrence_rate() 0.625 instead of 0.4; first set_* call uses the wrong diagonal stride)"},
  {"property": "C09", "match": r"^bounded:consistency/undirected-adjacency-symmetric$", "what": "HavlinClimateNetwork(SmallTestData, max_delay=3): similarity is asymmetric (S[0,1]=4.94, S[1,0]=4.16) but the network is declared undirected"},
  {"property": "C10", "match": r"^bounded:cross_correlation/lag-int8-range$", "what": "lag stored as int8 wraps for tau_max > 127: true lag 130 reported as -126 (finding #18)"},
- {"property": "C10", "match": r"^bounded:mutual_information/binning-lagged-norm$", "what": "binned MI with tau_max > 0 normalises entropies by T instead of T - tau_max (factor 0.9 for T=60, tau_max=6)"},
+ {"property": "C10", "match": r"^bounded:mutual_information/binning-lagged-norm$", "what": "binned MI with tau_max > 0 normalises entropies by T instead of T - tau_max (factor 0.9 for T=60, tau_max=6); the suite pins the current values (test_mutual_information_binning), so it cannot be repaired without editing a test"},
  {"property": "C10", "match": r"^bounded:SpearmanClimateNetwork/ties-average-rank$", "what": "SpearmanClimateNetwork ranks with double argsort (ties broken arbitrarily): rho 0.857 instead of 0.8"},
- {"property": "C10", "match": r"^bounded:mutual_information/gauss-perfect-correlation$", "what": "Gaussian MI -0.5 log(1-r^2) is NaN when rounding gives |r| > 1 (exactly collinear columns)"},
  {"property": "C01", "match": r"^bounded:InterSystemRecurrenceNetwork\.set_fixed_(threshold|recurrence_rate)/fresh-twin$", "what": "InterSystemRecurrenceNetwork.set_fixed_threshold/_recurrence_rate called after construction replace rp_x/rp_y/crp_xy but not the adjacency: lengths 7 and 6, thresholds (1,1,1) then set_fixed_threshold((1.6,1.4,1.8)) gives n_links 56 vs 74 fresh"},
  {"property": "C01", "match": r"^bounded:HilbertClimateNetwork\.set_(threshold|link_density|non_local)/directed-fresh-twin$", "what": "HilbertClimateNetwork(directed=True): the inherited regenerating setters drop the phase-direction mask (22 links vs 11 fresh)"},
  {"property": "C01", "match": r"^bounded:ClimateNetwork\.del_link_attribute/(derived-attribute-recomputed|cache-cleared|fresh-twin)$", "what": "after del_link_attribute('inv_correlation_distance') the cached inv_correlation_distance() does not reinstall the link attribute and correlation_distance_weighted_closeness() raises"},
